@@ -104,6 +104,28 @@ func LoadContracts(root string) (map[string]*Contract, []string, error) {
 	return out, files, nil
 }
 
+// LoadLibContracts reads the assumed contracts of library functions (<specDir>/lib/*.contracts, same
+// syntax as the contract files of the repository). They are assumptions: every one is marked trusted.
+func LoadLibContracts(specDir string, out map[string]*Contract) ([]string, error) {
+	files, _ := filepath.Glob(filepath.Join(specDir, "lib", "*.contracts"))
+	sort.Strings(files)
+	for _, f := range files {
+		before := map[string]bool{}
+		for k := range out {
+			before[k] = true
+		}
+		if err := loadContractFile(f, out); err != nil {
+			return nil, err
+		}
+		for k, c := range out {
+			if !before[k] {
+				c.Trusted = true
+			}
+		}
+	}
+	return files, nil
+}
+
 type rawLine struct {
 	text string
 	line int
